@@ -632,6 +632,7 @@ func runC10(c *fw.Ctx) {
 		}
 	}
 	c10HugeFileProbe(c)
+	c10UpdateJSONKeys(c)
 	if len(ops) > 0 && c.Model != nil {
 		res.ModelUsed = true
 		got, err := c.Model.Eval(ops)
